@@ -90,6 +90,10 @@ def gen(seed, tier):
             'how': r.choice(('copyTransactionsFrom', 'copy', 'range')),
             'bufsize': r.choice((64, 512, 8192, 65536)),
             'tick': r.choice((0.37, 45.0)), 'tier': tier,
+            # fsrecover's chattiness (other code paths).  Its -p option
+            # (keep the intact records of a damaged transaction, status
+            # 'p') deliberately outputs changed transactions: not explored
+            'verbose': r.choice((0, 0, 0, 1, 2)),
             'nvariants': 24 if tier == 'quick' else 200}
 
 
@@ -304,7 +308,8 @@ def run_recover(case):
             try:
                 with contextlib.redirect_stdout(out), \
                         contextlib.redirect_stderr(out):
-                    fr.recover('/sim/In.fs', '/sim/Out.fs', force=True)
+                    fr.recover('/sim/In.fs', '/sim/Out.fs', force=True,
+                               verbose=case.get('verbose', 0))
             except ctx.StepCap:
                 viol.append(('recover-does-not-terminate', '%s: more than '
                              '%d raw I/O operations on a %d-byte file'
